@@ -27,6 +27,8 @@ HARNESS = os.path.join(VERIF, "harness")
 BUILD = os.path.join(VERIF, ".build")
 # evidence describes /repo; runs against another tree (VERIF_REPO: seeded changes, older commits) write elsewhere
 EVIDENCE = os.path.join(VERIF, "evidence") if REPO == "/repo" else os.path.join(VERIF, ".build", "evidence-other-tree")
+if os.environ.get("VERIF_EVIDENCE"):      # development runs that must not replace the committed evidence
+    EVIDENCE = os.path.abspath(os.environ["VERIF_EVIDENCE"])
 REPLAYS = os.path.join(EVIDENCE, "replays")
 MODULE = "github.com/hprose/hprose-golang/v3"
 NCPU = os.cpu_count() or 4
